@@ -24,8 +24,9 @@ META = {
                   "evaluated on the observed store content against an independently computed DAH.",
     "level_note": "Consensus blocks are consistent (one content per height; the header given to the availability check "
                   "carries that block's DAH): the already-stored shortcut of SharesAvailable is not exercised with a header "
-                  "that disagrees with the stored block. Write failures are injected on the file system (a non-empty "
-                  "directory where the ODS file goes); an empty block is only linked, so no write failure exists for it. "
+                  "that disagrees with the stored block. Write failures are injected on the file system at three points of store.put, with the "
+                  "default recent-blocks cache: file creation (blocks directory away), replacing an invalid existing file "
+                  "(non-empty directory where the ODS file goes), linking the height (heights directory away); an empty block is only linked, so no write failure exists for it. "
                   "The window test of the code reads the wall clock: block times keep at least one hour of margin. "
                   "In-window blocks being stored *with* Q4 is compared as conformance, not demanded by the property. The "
                   "error mapping `A || B && !C` (a byzantine error joined with not-found is reported as not available, "
@@ -97,7 +98,7 @@ def run(ctx):
                    "MultiSource / store / full availability; non-trivial = distinct behaviours that store at least one block")
     need = {"behaviours_replayed": 50 if quick else 500, "announce_steps": 300, "available_steps": 100,
             "res_processed": 30, "res_duplicate": 30, "res_fetch_error": 20, "res_sync_error": 20,
-            "res_store_error": 20, "res_historic": 20, "res_outside_window": 10, "res_ok_empty": 10,
+            "res_store_error": 20, "store_fail_create": 4, "store_fail_recover": 4, "store_fail_link": 4, "res_historic": 20, "res_outside_window": 10, "res_ok_empty": 10,
             "res_ok_stored": 5, "res_ok_fetched": 2, "res_not_available": 5, "res_byzantine": 2,
             "res_not_available_or_byzantine": 1,
             "res_cancelled": 1, "multisource_events": 6}
